@@ -1046,6 +1046,13 @@ func (e *Engine) trCall(env *SpecEnv, n SCall) Val {
 		return boolVal("(str.in_re " + arg(0).T + " " + smt + ")")
 	case "bigOf":
 		return intVal(sel(e.heapIn(env.st, "BIGVAL", "(Array Int Int)"), arg(0).T))
+	case "splitDir", "splitFile":
+		// splitDir(p), splitFile(p): the two results of path.Split(p)
+		d, f := e.pathSplitTerms(arg(0).T)
+		if id.Name == "splitDir" {
+			return Val{T: d, S: "String", GoT: tString}
+		}
+		return Val{T: f, S: "String", GoT: tString}
 	case "decval":
 		// decval(s): the number a decimal numeral denotes (what big.Int.SetString(s, 10) stores; str.to_int for digit strings)
 		e.sc.declareFun("decval", []string{"String"}, "Int")
